@@ -579,4 +579,127 @@ Section Inv.
       rewrite Z2Nat.id by lia. destruct (Z.eqb_spec (pind s) bs); nia. }
     exists s', r. rewrite <- Hk. splits; try assumption. congruence.
   Qed.
+
+  (* a clean state: nothing buffered that the volume does not hold *)
+  Definition CB (s : hstate) (L E : list Z) : Prop := Base s L E /\ len L = size2db (fsize s) bs /\ chg s = false.
+
+  Lemma cb_data s L E k : CB s L E -> 0 <= k < len L ->
+    exists d, dk s (nthZ L k) = BData d /\ len (d_bytes d) = bs /\ (ofs = true -> k + 1 < len L -> d_next d = nthZ L (k + 1)).
+  Proof. intros (B & _ & Hc) Hk. destruct (b_ddisk _ _ _ B k Hk) as [(_ & Hx)|H]; [congruence|exact H]. Qed.
+
+  Lemma cb_ext s L E j : CB s L E -> 0 <= j < len E -> dk s (nthZ E j) = BExt (enc_x L E j).
+  Proof. intros (B & _ & Hc) Hj. destruct (b_xdisk _ _ _ B j Hj) as [H|(H & _)]; [assumption|congruence]. Qed.
+
+  (* the cursor fields of a clean state do not matter for Base *)
+  Lemma cb_frame s s' L E : CB s L E -> dk s' = dk s -> chg s' = false -> cext_ok s' L E -> fh s' = fh s -> Base s' L E.
+  Proof.
+    intros C Hdk Hchg Hcx Hfh. pose proof C as (B & HL & Hc). constructor; unfold fsize; rewrite ?Hdk, ?Hchg, ?Hfh.
+    - apply (b_hdr _ _ _ B).
+    - apply (b_size _ _ _ B).
+    - apply (b_nE _ _ _ B).
+    - apply (b_nodup _ _ _ B).
+    - apply (b_ge2 _ _ _ B).
+    - exact Hcx.
+    - intros j Hj. left. apply (cb_ext s L E j C Hj).
+    - intros k Hk. right. apply (cb_data s L E k C Hk).
+    - discriminate.
+  Qed.
+
+  (* a clean state whose buffer holds block k of the file *)
+  Lemma inv_loaded t s' L E k : CB t L E -> dk s' = dk t -> chg s' = false -> cext_ok s' L E -> fh s' = fh t ->
+    0 <= k < len L -> cur s' = nthZ L k -> ndb s' = k + 1 -> pos s' = k * bs + pind s' -> 0 <= pind s' <= bs -> pos s' <= fsize t ->
+    dk t (nthZ L k) = BData (cdata s') -> ext_cursor s' L E k -> Inv s' L E.
+  Proof.
+    intros C Hdk Hchg Hcx Hfh Hk Hcur Hndb Hpos Hpi Hle Hcd Hxc. pose proof C as (B & HL & Hc).
+    destruct (cb_data t L E k C Hk) as (d & Hd & Hlen & Hnx). rewrite Hd in Hcd. inversion Hcd; subst d.
+    split; [apply (cb_frame t); assumption|]. split; [unfold fsize; rewrite Hfh; exact HL|].
+    right. rewrite Hndb. replace (k + 1 - 1) with k by lia. unfold fsize. rewrite Hfh.
+    splits; try assumption; try lia.
+    - intros _. rewrite Hcur, Hdk. exact Hd.
+  Qed.
+
+  Lemma repr_clean s s' L E ct : Inv s L E -> chg s = false -> Inv s' L E -> chg s' = false -> dk s' = dk s -> fh s' = fh s -> Repr s L ct -> Repr s' L ct.
+  Proof.
+    intros I Hc I' Hc' Hdk Hfh R. apply (repr_same s s' L ct).
+    - unfold fsize. rewrite Hfh. reflexivity.
+    - destruct I as (_ & HL & _). exact HL.
+    - intros k Hk. destruct (clean_disk s L E k I Hc Hk) as (d & H1 & _ & _ & H4).
+      destruct (clean_disk s' L E k I' Hc' Hk) as (d' & H1' & _ & _ & H4'). rewrite Hdk, H1 in H1'. assert (Hdd : d' = d) by congruence.
+      rewrite H4, H4', Hdd. reflexivity.
+    - exact R.
+  Qed.
+
+  Lemma inv_cb s L E : Inv s L E -> chg s = false -> CB s L E.
+  Proof. intros (B & HL & _) Hc. split; [assumption|split; assumption]. Qed.
+
+  Lemma len_pos_of_size s L E : CB s L E -> fsize s <> 0 -> 0 < len L /\ 0 < fsize s.
+  Proof.
+    intros (B & HL & _) Hz. pose proof (b_size _ _ _ B). assert (0 < fsize s) by lia. split; [|assumption].
+    rewrite HL. apply size2db_pos; assumption.
+  Qed.
+
+  (* ---- adfFileSeekStart_ on a clean state ---- *)
+  Lemma seek_start_ok s L E ct : Inv s L E -> chg s = false -> Repr s L ct ->
+    exists s', seek_start bs ofs nobad s = (true, s') /\ Inv s' L E /\ Repr s' L ct /\ pos s' = 0 /\ chg s' = false
+      /\ dk s' = dk s /\ fh s' = fh s /\ mw s' = mw s /\ mr s' = mr s.
+  Proof.
+    intros I Hc R. pose proof (inv_cb s L E I Hc) as C. pose proof I as (B & HL & _).
+    unfold seek_start. set (s0 := set_cur (set_ndb (set_pind (set_pinx (set_pos s 0) 0) 0) 0) 0).
+    assert (Hf0 : fsize s0 = fsize s) by reflexivity. rewrite Hf0.
+    destruct (Z.eqb_spec (fsize s) 0) as [Hz|Hz].
+    - assert (I0 : Inv s0 L E).
+      { split; [apply (cb_frame s); try reflexivity; try assumption; apply (b_cext _ _ _ B)|]. split; [exact HL|]. left. splits; try reflexivity. exact Hz. }
+      exists s0. splits; try reflexivity; try assumption.
+      split; [destruct R as (Hl & _); exact Hl|]. intros i Hi. rewrite Hf0 in Hi. lia.
+    - destruct (len_pos_of_size s L E C Hz) as (HlL & Hsz).
+      assert (B0 : Base s0 L E) by (apply (cb_frame s); try reflexivity; try assumption; apply (b_cext _ _ _ B)).
+      destruct (read_next_ok s0 L E B0 Hc ltac:(simpl; lia) ltac:(unfold ext_cursor; simpl; lia) ltac:(simpl; lia))
+        as (sn & Hrn & Ndk & Npos & Npind & Nndb & Ncur & Ncd & Nlen & Nnx & Nchg & Nfh & Nmw & Nmr & Nxc & Ncx).
+      rewrite Hrn. exists sn. simpl in *.
+      assert (In_ : Inv sn L E).
+      { apply (inv_loaded s sn L E 0 C); try assumption; try lia. }
+      splits; try assumption; try reflexivity.
+      apply (repr_clean s sn L E ct); assumption.
+  Qed.
+
+  (* ---- adfPos2DataBlock, adfFileReadExtBlockN ---- *)
+  Lemma pos2db_spec p : 0 <= p -> let k := p / bs in
+    pos2db p bs = if k <? 72 then (-1, 0, p mod bs, k) else ((k - 72) / 72, (k - 72) mod 72, p mod bs, k).
+  Proof.
+    intros Hp k. unfold pos2db, MAXDB. fold k. destruct (Z.ltb_spec k 72); [reflexivity|].
+    assert (Ho : (p - bs * 72) / bs = k - 72).
+    { replace (p - bs * 72) with (p + (-72) * bs) by lia. rewrite Z.div_add by lia. subst k. lia. }
+    rewrite <- Z.div_div by lia. rewrite Ho. reflexivity.
+  Qed.
+
+  Lemma ext_walk_ok L E ext : forall fuel s i,
+    (forall j, 0 <= j < len E -> dk s (nthZ E j) = BExt (enc_x L E j)) -> (forall j, 0 <= j < len E -> 2 <= nthZ E j) ->
+    -1 <= i <= ext -> ext < len E -> Z.of_nat fuel = ext - i ->
+    ext_walk nobad fuel s (nthZ E (i + 1)) i ext = (true, (if i <? ext then set_cext s (Some (enc_x L E ext)) else s), ext).
+  Proof.
+    induction fuel as [|fuel IH]; intros s i Hx Hge Hi He Hf.
+    - assert (i = ext) by lia. subst i. simpl. rewrite Z.ltb_irrefl. reflexivity.
+    - assert (Hlt : i < ext) by lia. cbn [ext_walk]. destruct (Z.ltb_spec i ext); [|lia].
+      pose proof (Hge (i + 1) ltac:(lia)). destruct (Z.eqb_spec (nthZ E (i + 1)) 0); [lia|]. cbn [andb negb].
+      unfold rd_ext, nobad. rewrite (Hx (i + 1)) by lia. fold nobad.
+      specialize (IH (set_cext s (Some (enc_x L E (i + 1)))) (i + 1) Hx Hge ltac:(lia) He ltac:(lia)).
+      change (x_ext (enc_x L E (i + 1))) with (nthZ E (i + 1 + 1)). rewrite IH. destruct (Z.ltb_spec (i + 1) ext).
+      + reflexivity.
+      + assert (i + 1 = ext) by lia. subst ext. reflexivity.
+  Qed.
+
+  Lemma size2ext_len s L E : CB s L E -> size2ext (fsize s) bs = len E.
+  Proof. intros (B & HL & _). unfold size2ext. rewrite <- HL. symmetry. apply (b_nE _ _ _ B). Qed.
+
+  Lemma read_ext_n_ok s L E ext : CB s L E -> 0 <= ext < len E ->
+    read_ext_n bs nobad s ext = (true, set_cext s (Some (enc_x L E ext))).
+  Proof.
+    intros C He. pose proof C as (B & HL & Hc). unfold read_ext_n. rewrite (size2ext_len s L E C).
+    destruct (Z.ltb_spec ext 0); [lia|]. destruct (Z.ltb_spec (len E - 1) ext); [lia|]. cbn [orb].
+    pose proof (b_hdr _ _ _ B) as (_ & _ & _ & _ & Hext). rewrite Hext. replace 0 with (-1 + 1) at 1 by lia.
+    rewrite (ext_walk_ok L E ext (Z.to_nat (ext + 1)) s (-1)); try lia.
+    - destruct (Z.ltb_spec (-1) ext); [|lia]. rewrite Z.eqb_refl. reflexivity.
+    - intros j Hj. apply (cb_ext s L E j C Hj).
+    - intros j Hj. apply (b_ge2 _ _ _ B). apply in_or_app. right. apply in_E_nth. assumption.
+  Qed.
 End Inv.
